@@ -11,9 +11,10 @@ What is mirrored, function by function:
   lib/mp.GetMapValue / extractFromSlice / calcIndex       → `getMapValue`
   http/preprocessor.Preprocessor.Process                  → `runPre`
   guns/http_scenario ScenarioGun.shoot / shootStep        → `shootStep`, `shootLoop`, `shoot`
+  lib/mp.NextIterator.Next as small steps of N threads    → `NSys` (`step`, `run`), `gsRead`, `gsWrite`, `rowOf`
 
 Partial Go operations are explicit outcomes: `make` with a negative capacity and a zero divisor in `SpreadNames`
-(negative weights) are panics; `sleep()` with no step before it and indexing into an empty data source are
+are panics of `spreadNames` (unreachable from `decodeAmmo`, which refuses negative weights first); `sleep()` with no step before it and indexing into an empty data source are
 errors (since the repairs 4ebec35 and d4ccb1f; they were an index −1 and a `% 0` panic before).
 
 Templating (text/template over the variable tree), the target and the postprocessor libraries are
@@ -251,6 +252,8 @@ def decodeLoop {ρ} (reqs : List Char → Option ρ) (names : List (List Char ×
 
 /-- `decodeAmmo`: the ammo ring (one pass of the provider) -/
 def decodeAmmo {ρ} (reqs : List Char → Option ρ) (scs : List ScenarioCfg) : Outcome (List (Scenario ρ)) :=
+  -- `if sc.Weight < 0 { return nil, fmt.Errorf("scenario %s: weight should not be negative, …") }`
+  if scs.any (fun sc => sc.weight < 0) then .err "negweight" else
   match spreadNames scs with
   | .err e => .err e
   | .panic p => .panic p
